@@ -583,6 +583,10 @@ func genName(t *rapid.T, arbitrary bool) string {
 	if rapid.Bool().Draw(t, "hk") {
 		n += "/kind=" + rapid.SampledFrom([]string{"a", "b"}).Draw(t, "kind")
 	}
+	if vcase.OneIn(t, 3, "lookalike") {
+		// parts whose key merely starts with a projected key, and positional parts that look like one
+		n += rapid.SampledFrom([]string{"/sizeclass=8", "/sizes", "/kinds=x", "/size", "/gomaxprocs2=1", "/kindred", "/sizeclass=9"}).Draw(t, "look")
+	}
 	switch rapid.IntRange(0, 3).Draw(t, "gmp") {
 	case 0:
 		n += "-" + rapid.SampledFrom([]string{"1", "4", "8"}).Draw(t, "procs")
